@@ -34,6 +34,7 @@ func VF_C18_Int() {
 	vf.Assert(vf.Implies(a < b, vf.StrLess(ea, eb)), "a<b => E(a,r1)<E(b,r2)")
 	vf.Assert(vf.Implies(vf.StrLess(ea, eb), a <= b), "E(a,r1)<E(b,r2) => a<=b")
 	vf.Assert(vf.Implies(a == b, vf.StrLess(ea, eb) == vf.StrLess(ea[4:], eb[4:])), "equal keys ordered by row id bytes only")
+	vf.Assert(vf.Implies(a == b, ea[:4] == eb[:4]), "a==b => Ekey(a)==Ekey(b)")
 	vf.Assert(vf.Implies(vf.And(a == b, vf.And(r1.PageID == r2.PageID, r1.SlotNum == r2.SlotNum)), ea == eb), "same key and rid => same encoding")
 	vf.Assert(vf.Implies(ea == eb, vf.And(a == b, vf.And(r1.PageID == r2.PageID, r1.SlotNum == r2.SlotNum))), "encoding is injective")
 	// bracket
@@ -61,6 +62,9 @@ func VF_C18_Float() {
 	vf.Assert(vf.Implies(a < b, vf.StrLess(ea, eb)), "a<b => E(a,r1)<E(b,r2)")
 	// -0.0 and +0.0 compare equal but encode differently: the converse is stated on the encodings of the key part
 	vf.Assert(vf.Implies(vf.StrLess(ea[:4], eb[:4]), a <= b), "Ekey(a)<Ekey(b) => a<=b")
+	// values that compare equal (-0.0 and +0.0) must share one key encoding, otherwise a lookup of 0.0 misses rows stored as -0.0
+	vf.Assert(vf.Implies(vf.F32Eq(a, b), ea[:4] == eb[:4]), "a==b => Ekey(a)==Ekey(b)")
+	vf.Assert(vf.Implies(vf.F32Eq(a, b), vf.And(!vf.StrLess(eb, vfEncStr(types.NewFloat(a), &page.RID{PageID: 0, SlotNum: 0})), !vf.StrLess(vfEncStr(types.NewFloat(a), &page.RID{PageID: math.MaxInt32, SlotNum: math.MaxUint32}), eb))), "an equal value's entry lies inside the bracket ScanKey uses")
 	lo := vfEncStr(types.NewFloat(a), &page.RID{PageID: 0, SlotNum: 0})
 	hi := vfEncStr(types.NewFloat(a), &page.RID{PageID: math.MaxInt32, SlotNum: math.MaxUint32})
 	vf.Assert(!vf.StrLess(ea, lo), "E(a,{0,0}) <= E(a,r)")
